@@ -9,30 +9,28 @@ import (
 
 func newBytesReader(b []byte) *bytes.Reader { return bytes.NewReader(b) }
 
-// rawStreams lists (raw, decoded) for every stream object the reader delivers.
-func rawStreams(r *pdf.Reader, data []byte, maxNum uint32) [][2][]byte {
+// rawStreams lists (raw, decoded) for the stream objects among refs whose decoding needs go-pdf's filters.
+func rawStreams(r *pdf.Reader, refs []pdf.Reference) [][2][]byte {
 	var res [][2][]byte
-	for n := uint32(1); n <= maxNum; n++ {
-		for g := uint16(0); g < 3; g++ {
-			obj, err := r.Get(pdf.NewReference(n, g), true)
-			if err != nil || obj == nil {
-				continue
-			}
-			stm, ok := obj.(*pdf.Stream)
-			if !ok {
-				continue
-			}
-			raw, _ := io.ReadAll(stm.NewReader())
-			rd, err := pdf.DecodeStream(r, nil, stm)
-			if err != nil {
-				continue
-			}
-			dec, err := io.ReadAll(rd)
-			if err != nil {
-				continue
-			}
-			res = append(res, [2][]byte{raw, dec})
+	for _, ref := range refs {
+		obj, err := r.Get(ref, true)
+		if err != nil || obj == nil {
+			continue
 		}
+		stm, ok := obj.(*pdf.Stream)
+		if !ok || stm.Dict["Filter"] == nil {
+			continue // unfiltered: its own decoding; the table is keyed by raw bytes and must not be ambiguous
+		}
+		raw, _ := io.ReadAll(stm.NewReader())
+		rd, err := pdf.DecodeStream(r, nil, stm)
+		if err != nil {
+			continue
+		}
+		dec, err := io.ReadAll(rd)
+		if err != nil {
+			continue
+		}
+		res = append(res, [2][]byte{raw, dec})
 	}
 	return res
 }
